@@ -48,6 +48,13 @@ class Builder:
             return c['v']
         if t == 'none':
             return None
+        if t == 'datetime_utc':
+            import datetime as _dt
+            f = c['v']
+            try:
+                return _dt.datetime(f['year'], f['month'], min(f['day'], 28), f['hour'], f['minute'], f['second'], f['microsecond'], tzinfo=_dt.timezone.utc)
+            except ValueError as e:
+                raise ValueError(f'model fields do not form a datetime: {f}: {e}')
         if t == 'bytes':
             return bytes(c['v'])
         if t == 'bytearray':
@@ -58,6 +65,8 @@ class Builder:
             return [self.build(x) for x in c['v']]
         if t == 'enum':
             return getattr(self.cls(c['cls']), c['member'])
+        if t == 'enumv':
+            return self.cls(c['cls'])(c['value'])
         if t == 'cls':
             return self.cls(c['v'])
         if t == 'obj':
@@ -135,7 +144,8 @@ def main():
             f = getattr(m, fname)
             call = lambda: f(**args)
         env = dict(spec)
-        env.update({'implies': implies, 'iff': iff, 'struct': struct})
+        import datetime as _dtm
+        env.update({'implies': implies, 'iff': iff, 'struct': struct, 'timezone': _dtm.timezone})
         env.update(args)
         if selfv is not None:
             env['self'] = selfv
@@ -154,6 +164,15 @@ def main():
                     return
             except Exception as e:
                 out['notes'].append(f'precondition not evaluable: {r}: {e!r}')
+        focus = rp.get('focus') or {}
+        fkind, fname = focus.get('kind'), focus.get('name')
+
+        def named(lst):
+            return [(c[0], c[1]) if isinstance(c, (list, tuple)) else (str(i), c) for i, c in enumerate(lst)]
+
+        def wanted(kind, name=None):
+            # only the clause of the failed obligation decides; without focus every clause is checked
+            return not fkind or (fkind == kind and (name is None or fname is None or str(name) == str(fname)))
         raised = None
         result = None
         try:
@@ -162,9 +181,9 @@ def main():
                 k_ = 0
                 for y in result:
                     env['yielded'] = y
-                    for r in ct.get('yield_requires', []):
-                        if not eval(pre.rewrite(r), {**env, **pre.vals}):
-                            out['failed_clauses'].append(f'yield-req (yield #{k_}): {r}')
+                    for nm_, r in named(ct.get('yield_requires_named', ct.get('yield_requires', []))):
+                        if wanted('yield-req', nm_) and not eval(pre.rewrite(r), {**env, **pre.vals}):
+                            out['failed_clauses'].append(f'yield-req#{nm_} (yield #{k_}): {r}')
                     newg = {g: eval(u, dict(env)) for g, u in ct.get('on_yield', {}).items()}
                     env.update(newg)
                     k_ += 1
@@ -191,26 +210,34 @@ def main():
                             cond = c
                     except Exception:
                         pass
-            if cond is None:
-                out['failed_clauses'].append(f'undeclared exception {full}: {str(raised)[:200]}')
-            elif not eval(cond, dict(full_pre)):
+            allowed = any(m_ == full or m_.split('.')[-1] == en or m_ == 'AnyException' for m_ in ct.get('may_raise', []))
+            if cond is None and not allowed:
+                if wanted('raises-only-if'):
+                    out['failed_clauses'].append(f'undeclared exception {full}: {str(raised)[:200]}')
+            elif cond is not None and wanted('raises-only-if') and not eval(cond, dict(full_pre)):
                 out['failed_clauses'].append(f'raised {full} although its condition is false: {cond}')
+            elif fkind and fkind.startswith('post'):
+                out['notes'].append(f'the call raised {full}; the postcondition of the failed obligation cannot be evaluated on this input')
         else:
             out['observed'] = {'returned': repr(result)[:400]}
             for d, c in ct.get('raises', {}).items():
+                if not wanted('noraise-outside', d):
+                    continue
                 try:
                     if eval(c, dict(full_pre)):
                         out['failed_clauses'].append(f'returned normally although {d} was required: {c}')
                 except Exception as e:
-                    out['notes'].append(f'raises clause not evaluable: {c}: {e!r}')
-            for r in ct.get('ensures', []):
+                    out['notes'].append(f'raises clause not evaluable natively: {c}: {e!r}')
+            for nm_, r in named(ct.get('ensures_named', ct.get('ensures', []))):
+                if not wanted('post', nm_):
+                    continue
                 try:
                     ok = eval(pre.rewrite(r), {**env, **pre.vals})
                 except Exception as e:
-                    ok = False
-                    out['notes'].append(f'clause raised {e!r}: {r}')
+                    ok = True       # not evaluable natively (uninterpreted specification function ...): no verdict from this clause
+                    out['notes'].append(f'clause not evaluable natively ({e!r}): {r}')
                 if not ok:
-                    out['failed_clauses'].append(f'post: {r}')
+                    out['failed_clauses'].append(f'post#{nm_}: {r}')
         out['confirmed'] = bool(out['failed_clauses'])
     except BaseException as e:       # noqa
         out['notes'].append('replay harness error: ' + ''.join(traceback.format_exception_only(type(e), e)).strip())
